@@ -1041,6 +1041,7 @@ def check_outbuf(ctx, prog):
     n = check_fixed_buffers(ctx, prog, 'C08.outbuf')
     ctx.floor('C08.outbuf fixed buffers', n, 2)   # the XDL parser's two escape sites may legitimately be one
     check_heap_destinations(ctx, prog)
+    check_dataw(ctx, prog)
 
 
 def check_fixed_buffers(ctx, prog, rule, only_file=None):
@@ -1096,6 +1097,63 @@ def check_heap_destinations(ctx, prog):
     ctx.analysed(f)
     ok = any(e.get('k') == 'bin' and e.get('op') == '*' and (const_val(e['x']) or 0) >= 3 for e in fn_exprs(f))
     ctx.check(ok, 'C08.outbuf', f['pq'], 'String(const wchar_t*):bytes per unit', fwhere(f), 'destination sized >= 3 bytes per UTF-16 unit', 'String(const wchar_t*) sizes its destination with fewer than 3 bytes per unit')
+
+
+def check_dataw(ctx, prog):
+    """C08.outbuf, String::dataw(): the wide copy lives behind the 8-bit text in the same buffer, at an aligned offset.  For every
+    length 0..96 the reservation, the offset and the number of wide units the converter may write (count + terminator) are
+    evaluated: offset + units * sizeof(wchar_t) must fit the capacity that resize(n) guarantees (n + 1 bytes)."""
+    import bounded, bytesets
+    fs_ = [g_ for g_ in prog.fn('asl::String::dataw') if g_.get('body') and any(e.get('k') == 'call' and e.get('pq') == 'asl::String::resize' for e in fn_exprs(g_))]
+    if not fs_:
+        raise AnalysisBroken('anchor asl::String::dataw (the overload that reserves the wide copy) not found')
+    f = fs_[0]
+    ctx.analysed(f)
+    role = 'dataw:wide copy fits behind the text'
+    rs = [e for e in fn_exprs(f) if e.get('k') == 'call' and e.get('pq') == 'asl::String::resize' and e.get('a')]
+    convs = [e for e in fn_exprs(f) if e.get('k') == 'call' and not e.get('clsp') and len(e.get('a', [])) == 3 and
+             T(f, strip_lv(e['a'][1]).get('t')).get('ptr') and T(f, T(f, strip_lv(e['a'][1]).get('t')).get('to')).get('bits') == 32]
+    if len(rs) != 1 or len(convs) != 1:
+        ctx.undecided('C08.outbuf', f['pq'], role, fwhere(f), 'reservation / conversion call not found (%d, %d)' % (len(rs), len(convs)))
+        return
+    dst = q.expand(f, convs[0]['a'][1])
+    offs = [w for w in walk_expr(dst) if w.get('k') == 'bin' and w.get('op') == '+' and any(x.get('k') == 'call' and (x.get('pq') or '').endswith('String::str') for x in walk_expr(w['x']))]
+    if not offs:
+        ctx.undecided('C08.outbuf', f['pq'], role, fwhere(f), 'destination `%s` is not str() + offset' % pe(dst))
+        return
+    wsz = 4
+    bad = None
+    # a String never has less than its inline buffer: resize(n) guarantees max(n + 1, inline size) bytes
+    inline = 0
+    for r_ in prog.records.values():
+        if r_['q'].startswith('asl::String'):
+            for fld in r_.get('fields', []):
+                if fld['n'] == '_space':
+                    inline = max(inline, T(r_, fld['t']).get('n') or 0)
+    try:
+        for L in range(0, 97):
+            def bind(x, L=L):
+                if x.get('k') == 'mem' and x.get('f') == '_len':
+                    return L
+                return None
+            ev = bounded.Bound(prog, f, {}, {}, bind=bind)
+            R = ev.ev(rs[0]['a'][0])
+            off = ev.ev(q.expand(f, offs[0]['y']))
+            units = ev.ev(convs[0]['a'][2]) + 1
+            ctx.evaluations += 1
+            if off % wsz:
+                bad = 'for a %d-byte text the wide copy starts at the unaligned offset %d' % (L, off)
+                break
+            if off < L + 1:
+                bad = 'for a %d-byte text the wide copy starts at offset %d, inside the text and its terminator' % (L, off)
+                break
+            if off + units * wsz > max(R + 1, inline):
+                bad = 'for a %d-byte text resize(%d) guarantees %d bytes but the wide copy (%d units of %d bytes at offset %d) ends at byte %d: the terminator is written past the buffer' % (L, R, max(R + 1, inline), units, wsz, off, off + units * wsz)
+                break
+    except bytesets.Undecidable as u:
+        ctx.undecided('C08.outbuf', f['pq'], role, fwhere(f), 'sizes not evaluable: %s' % u)
+        return
+    ctx.check(bad is None, 'C08.outbuf', f['pq'], role, fwhere(f, rs[0].get('l')), 'lengths 0..96: aligned offset behind the text, offset + (len + 1) * 4 within the reserved capacity', 'String::dataw(): %s' % bad)
 
 
 # ------------------------------------------------------------------ C08.case
